@@ -15,6 +15,18 @@ CHECKS = {
    text="Inductive step from an arbitrary valid protocol-core state (all scalar fields, sequence numbers, clock, windows symbolic; queue shapes from a small family): after Input of arbitrary bytes (forged una/sn/wnd/len/cmd), flush, Recv and Send the buffering limits (delivery queue and reorder buffer <= rcv_wnd, in flight <= snd_wnd), the truthful-window clause on every emitted header (decoded by an independent decoder), the admission rule min(snd_wnd, rmt_wnd[, cwnd]) and the RTO->cwnd=1 rule hold, and the representation invariant is preserved, so the limits hold after histories of any length within the shape bound. Bounded symbolic model checking, not a proof.",
    note="Trusted: gse, solvers, the hand-written invariant (its inductiveness is what is checked; conjuncts labelled inv/ are lemma level). Shapes <= 2 per queue, datagrams <= 96 bytes with <= 1 (quick) / 2 (thorough) segments.",
    design="§4 C04"),
+ "C05": dict(
+   text="Arbitrary bytes (every length 0..2048, free 32-bit length field, forged headers) fed to the real KCP.Input from arbitrary valid states: every implicit Go panic condition (index, slice bounds, nil, division, type assertion) on every explored path is an SMT query, the C04 buffering limits are re-asserted, and per-call growth (pool buffers, ack list, held segments) is bounded by the number of segments. Bounded symbolic model checking.",
+   note="Trusted: gse, solvers, INV_KCP. Quick: one complete segment per datagram; thorough: up to three. Session/listener/FEC-decoder paths are covered only by the harnesses listed in the evidence.",
+   design="§4 C05"),
+ "C10": dict(
+   text="Symbolic MTU: for every int passed to the real SetMtu after real traffic at another MTU, an accepted value is followed by flush/Send with no feasible panic and every output(buf,size) call satisfies 0 < size <= mtu; a refused value changes nothing. flush from arbitrary states with a fully symbolic MTU emits only well-formed concatenations of header+len bytes. Bounded symbolic model checking.",
+   note="Trusted: gse, solvers. Fragment counts after an MTU change are bounded by 3. Session-level overhead arithmetic is covered only by the harnesses listed in the evidence.",
+   design="§4 C10"),
+ "C18": dict(
+   text="RTO bound clause: rx_minrto <= rx_rto <= 60000 is preserved by update_ack for every rtt/srtt/rttvar (one merged path covering all values, including the rttvar<<2 overflow) and by Input of arbitrary datagrams at arbitrary clocks from arbitrary states; holds initially and after NoDelay with arbitrary arguments. Bounded symbolic model checking; the no-spurious-retransmission clause is claimed only as far as the harnesses listed in the evidence go.",
+   note="Trusted: gse, solvers, INV_KCP (srtt, rttvar >= 0 is part of it and re-asserted).",
+   design="§4 C18"),
 }
 
 NOT_APPLICABLE = {}
